@@ -84,3 +84,11 @@ func init() {
 		ruleSIBviews(w, r)
 	})
 }
+
+func init() {
+	register("C13", "concurrent use is free of races, deadlocks and lost updates", func(w *World, r *Report) {
+		lr := ruleLCK(w, r)
+		ruleLCK5(w, r, lr)
+		ruleORD6(w, r)
+	})
+}
